@@ -115,13 +115,15 @@ impl CidState {
             r == any_in(final(self).active_seq@, old(self).retire_seq as int, final(self).retire_seq as int),
 //@ end
 //@ extract quinn-proto/src/connection/cid_state.rs :: impl CidState::fn on_cid_retirement
+//@ props C09 C03
 //@ ret res
 //@ contract
         ensures match res {
-            // a retired CID leaves the active set; another may be issued exactly while the peer holds fewer than its limit
-            Ok(b) => old(self).cid_len != 0 && sequence <= old(self).issued && final(self).active_seq@ == old(self).active_seq@.remove(sequence)
+            // a retired CID leaves the active set; another may be issued exactly while the peer holds fewer than its limit.
+            // `issued` is a count: the sequence numbers sent so far are 0..issued, and RFC 9000 19.16 makes any larger one a PROTOCOL_VIOLATION
+            Ok(b) => old(self).cid_len != 0 && sequence < old(self).issued && final(self).active_seq@ == old(self).active_seq@.remove(sequence)
                 && b == (limit > final(self).active_seq@.len()),
-            Err(e) => e.code == Code::PROTOCOL_VIOLATION && (old(self).cid_len == 0 || sequence > old(self).issued) && final(self).active_seq == old(self).active_seq,
+            Err(e) => e.code == Code::PROTOCOL_VIOLATION && (old(self).cid_len == 0 || sequence >= old(self).issued) && final(self).active_seq == old(self).active_seq,
         },
         final(self).retire_seq == old(self).retire_seq, final(self).prev_retire_seq == old(self).prev_retire_seq, final(self).issued == old(self).issued,
 //@ end
